@@ -171,3 +171,30 @@ reg("C17",
     "(iii) liveness: a ticker coroutine in the same loop must make progress between entry and exit of every async-thread node. non-trivial = gathered schedules with >= 1 real choice; distinct 2-statement programs",
     "(i) ops {+,<}, one of 3 configurations by rotation; (ii) N<=2 with k in {2,3}, N=3 with k=2; schedules per case capped at 3000 (cap hits reported)",
     "(i) ops {+,<,==,&}; (ii) N<=3, k in {2,3} for N<=2", PROG_ASSUME)
+
+# ---- families added after the seeded-change waves (DESIGN 10): appended to the rules so that the evidence describes them
+CROSS_TEXT = (" In addition every SCHED check runs the shared cross-feature families (twzmc/spaces.py cross_families): constant activation flags x sequential x resources; "
+              "early completions (a pooled node may finish at any scheduler step) next to inline main-thread nodes; max_concurrency reconfigured after the build; "
+              "is_sequential / priority set through config_from_dict (by id, by a tag shared by several nodes, partially, before and after a first call); "
+              "debug nodes with priorities under sub-graph selections with RUN_DEBUG_NODES on; several flags on parts of one result with every subset falsy. "
+              "thorough additionally runs the quick families of all other SCHED checks under this check's monitor.")
+for _c in ("C02", "C03", "C04", "C05", "C06", "C08", "C09", "C14"):
+    INFO[_c]["rule"] += CROSS_TEXT
+INFO["C02"]["rule"] += " Plus: constant-flag family (a deactivated node next to pending predecessors of its children); nested repeated-call programs (C20 families R, C) under every schedule against the reference interpreter."
+INFO["C03"]["rule"] += " Plus: empty selections; an executor constructed before dag.setup() and run afterwards; N=4 rotating dependency forms with every subset of flags falsy."
+INFO["C04"]["rule"] += " Plus: the loop's default executor is owned by the controller (nodes sent there are counted)."
+INFO["C05"]["rule"] += " Plus: an early-completion slice (N<=4) for code that polls future.done()."
+INFO["C07"]["rule"] += " Plus: debug nodes with priorities re-added to sub-graphs (RUN_DEBUG_NODES on); compose() as a way of obtaining the graph; reconfiguration to exactly 0."
+INFO["C09"]["rule"] += " Plus: a node function that runs another DAG at run time (every resource of caller and inner node); watchdog around executor construction."
+INFO["C10"]["rule"] += " Plus: two nodes guarded by different parts of one result; flags inside nested DAGs (indexed / unpacked, one and two levels); three-level pass-through of parameters fed by a setup result / constant."
+INFO["C11"]["rule"] += " Menu as built: + construct-executor / run-stored-executor, setup(target deep below the setup nodes), setup(target_nodes=[]); topologies + a None-returning setup node and a chain of non-setup nodes below a setup node."
+INFO["C12"]["rule"] += " Plus: indexed dependency forms under selection; aliases that are proper substrings of another node's tag; one instance kept over the whole sequence of selections when setup nodes exist."
+INFO["C13"]["rule"] += " Plus: the build clause over every dependency form (positional, keyword, indexed, flag) and through nested DAG calls (argument, second argument, index, flag, two levels)."
+INFO["C14"]["rule"] += " Plus: early-completion slice; failures next to sequential candidates with priorities; failures with TAWAZI_PROFILE_ALL_NODES on."
+INFO["C15"]["rule"] += " Menu as built: + setup(), setup(target=last); compose over a node input for the keyword-wired DAG; build clause: a setup node fed by a DAG argument in any form is refused."
+INFO["C16"]["rule"] += " Scenarios as built: + {failed build; call; bare call || build with pause}, {failed build; build || build with pause; call}; all scenario threads carry the same thread name."
+INFO["C17"]["rule"] += " Plus: concurrent FIRST awaits of a DAG whose setup nodes have not run; one await failing next to running siblings (a forced completion = loop thread blocked); N=4 async-thread shapes under every completion order."
+INFO["C18"]["rule"] += " Plus: from_cache + cache_in chains (third run from the second file); cache_deps_of naming two nodes; debug nodes downstream with RUN_DEBUG_NODES on; a node whose legal result is None; one instance and one path rewritten and re-read."
+INFO["C19"]["rule"] += " Plus: inputs in every order; aliases that are substrings of other tags; None-valued constants / defaults / setup results."
+INFO["C20"]["rule"] += " Plus: inner nodes exchanging indexed values by keyword; the same inner DAG (module-level and defined inside a factory function) called 4 times with constants and results overriding defaults; inline - reconfigure - inline again."
+INFO["C01"]["rule"] += " Plus: 5-6 statement 'wide' programs under every schedule; the nested repeated-call / whole-result programs of C20; nested DAG whose inner nodes exchange indexed values by keyword."
